@@ -917,7 +917,9 @@ func (node *Node) check(ctx context.Context) error {
 				node.state.SetWasInSync()
 			}
 
-			if !node.state.NotifiedSync() {
+			// Only notify when every announced block has been processed. Headers received after the
+			// sync was detected can still have blocks outstanding.
+			if !node.state.NotifiedSync() && node.state.TotalBlockRequestCount() == 0 {
 				// TODO Add method to wait for mempool to sync
 				for _, handler := range node.handlers {
 					handler.HandleInSync(ctx)
